@@ -30,6 +30,13 @@ def run_lemmas(prop, tier):
             ob = Obligation(name, hyps, goal)
             t0 = time.time()
             try:
+                import z3
+                vs = z3.Solver()
+                vs.set("timeout", 5000)
+                for h in hyps:
+                    vs.add(h)
+                if vs.check() == z3.unsat:
+                    raise RuntimeError("vacuous lemma: hypotheses are contradictory")
                 q = solve.build_query(ob, [])
                 r = solve.solve_one((name, q, 20000 if tier == "quick" else 120000, True))
                 out.append({"name": name, "kind": "lemma", "props": [prop], "clause": text, "status": r[1], "backend": r[2],
